@@ -9,7 +9,7 @@ import re
 
 from .. import models, run
 from ..fb import render_attrs
-from .common import (Case, HELD, VIOLATED, INCONCLUSIVE, TERM, bad_outcome, diag_list, files_text, h, lua_script, rng)
+from .common import (Case, HELD, VIOLATED, INCONCLUSIVE, TERM, bad_outcome, diag_list, files_text, h, lua_script, rng, tsan_collect, tsan_env)
 
 ID = "C18"
 LEVEL = "exploration"
@@ -186,8 +186,10 @@ def run_job(job, ctx):
             env["TOKIO_WORKER_THREADS"] = str(workers)
         if safe:
             env["BLOCKWATCH_LUA_MODE"] = "safe"
+        tsan_dir = None
         if fl == "tsan":
-            env["TSAN_OPTIONS"] = "halt_on_error=0:exitcode=66"
+            tsan_dir = run.fresh_dir("tsan")
+            tsan_env(env, tsan_dir)
         if fl == "asan":
             env["ASAN_OPTIONS"] = "detect_leaks=0"
         root = run.make_repo(files)
@@ -200,6 +202,11 @@ def run_job(job, ctx):
             lp = os.path.join(logdir, "calls.log")
             log_lines = open(lp).read().split("\n")[:-1] if os.path.exists(lp) else []
             run.rm(logdir)
+        tsan_sigs, _ign = tsan_collect(tsan_dir) if tsan_dir else ([], 0)
+        if tsan_sigs:
+            out.append(Case(VIOLATED, key=h([files, "tsan"]), nontrivial=True, sig="C18/tsan/" + tsan_sigs[0],
+                            summary="ThreadSanitizer report(s): %s" % tsan_sigs[:3], witness={"files": files_text(files, 3000), "reports": tsan_sigs}))
+            continue
         out.append(judge(res, files, blocks, log_lines, dict(job, j=j), workers, aff, safe, fl))
     return out
 
